@@ -30,7 +30,7 @@ GENFL = "veryl::cmd_build::CmdBuild::gen_filelist"
 CHKB = "veryl::cmd_build::CmdBuild::check_bundle"
 FMT = "veryl::cmd_fmt::CmdFmt::exec"
 SPECIFIC = frozenset({"filelist_path", "build.target"})
-WRITE = r"^veryl::utils::write_file_if_changed$"
+WRITE = r"^veryl::utils::write_(file|output)_if_changed$"
 READ = r"^std::fs::(read_to_string|read)$"
 
 
